@@ -33,6 +33,9 @@ def leaf_hash(kind, v):
         return h2(h2(a, b), h2(c, ZERO))
     if kind == 'var':
         return h2(v.ljust(32, b'\0'), len(v).to_bytes(32, 'little'))
+    if kind == 'nest':
+        ch = [v[32 * i:32 * (i + 1)].ljust(32, b'\0') for i in range(4)]
+        return h2(h2(h2(ch[0], ch[1]), h2(ch[2], ch[3])), (len(v) // 8).to_bytes(32, 'little'))
     raise ValueError(kind)
 
 
